@@ -18,6 +18,7 @@ func init() {
 }
 
 func ruleR4ResolveOrder(c *Ctx) []Obligation {
+	r2LoopCtx = c
 	stacks := r4emScopeStacks(c)
 	resolvers := map[*types.Func]string{}
 	for _, sr := range r4emSearchLoops(c, stacks) {
